@@ -266,6 +266,12 @@ class G:
             self.st[s]["en"] = False
             self.st[s]["ever_disabled"] = True
             return
+        if x < 0.66 + 0.02 and en and self.cls in ("faults", "life", "mix", "disable"):
+            # enabling a source that is enabled already: must fail and change nothing (fd-backed kinds only)
+            cand = [s for s in en if self.decl(s)["kind"] != "timer"]
+            if cand:
+                self.steps.append({"op": "enable", "ts": r.choice(cand)})
+                return
         if x < 0.72 and dis:
             s = r.choice(dis)
             if self.cls == "faults" and r.random() < 0.4:
